@@ -2,7 +2,7 @@
 import itertools
 from fractions import Fraction
 from ..run import run_one
-from ..oracles import kernel_health
+from ..oracles import kernel_health, containment
 from .. import faults as F
 from .c04 import ST_op
 
@@ -209,6 +209,7 @@ def check_exec(program, faults=()):
     except RuntimeError as e:
         msgs, overlap = ['oracle: %s' % e], False
     msgs += kernel_health(ctx)
+    msgs += containment(ctx, program)
     if ctx.outcome is not None:
         msgs.append('run() raised %r' % (ctx.outcome,))
     if not any(r[0] == 'finish' and r[1] == 'root' for r in ctx.log):
